@@ -149,6 +149,8 @@ impl<F: Float, R> ParamGuard for TSneParams<F, R> {
             Err(TSneError::NegativePerplexity)
         } else if self.0.approx_threshold.is_negative() {
             Err(TSneError::NegativeApproximationThreshold)
+        } else if matches!(self.0.preliminary_iter, Some(x) if x > self.0.max_iter) {
+            Err(TSneError::PreliminaryIterationsTooLarge)
         } else {
             Ok(&self.0)
         }
